@@ -1,7 +1,7 @@
 (** [run_line]: one case line in, one observation line out (model side of the
     correspondence check). *)
 From Coq Require Import String.
-From JP Require Import Base F64 Value Sig Slice JsonRead JsonPrint Functions Interp Wire.
+From JP Require Import Base F64 Value Sig Slice JsonRead JsonPrint Functions Interp Lexer Parser Wire.
 
 Definition K_slice := Eval compute in s2l "slice".
 Definition K_index := Eval compute in s2l "index".
@@ -111,6 +111,34 @@ Definition run_fn (ts : list tok) : list tok :=
   | _ => bad
   end.
 
+Definition K_parse_k := Eval compute in s2l "parse".
+Definition K_search := Eval compute in s2l "search".
+
+(** parse <text> : [jmespath::parse] *)
+Definition run_parse (ts : list tok) : list tok :=
+  match ts with
+  | [t] =>
+      match parse_str t with
+      | Some text => pr_res text pr_ast (parse text)
+      | None => bad
+      end
+  | _ => bad
+  end.
+
+(** search <text> <doc> : [compile(text)?.search(doc)] *)
+Definition search_str (text : str) (d : value) : res value :=
+  let* a := parse text in search_ast fuel_default default_runtime a d.
+
+Definition run_search (ts : list tok) : list tok :=
+  match ts with
+  | t :: r =>
+      match parse_str t, rd_value (S (length r)) r with
+      | Some text, Some (d, []) => pr_res text pr_value (search_str text d)
+      | _, _ => bad
+      end
+  | [] => bad
+  end.
+
 Definition run_tokens (ts : list tok) : list tok :=
   match ts with
   | k :: r =>
@@ -120,6 +148,8 @@ Definition run_tokens (ts : list tok) : list tok :=
       else if str_eqb k K_cmp then run_cmp r
       else if str_eqb k K_truthy then run_truthy r
       else if str_eqb k K_fn then run_fn r
+      else if str_eqb k K_parse_k then run_parse r
+      else if str_eqb k K_search then run_search r
       else bad
   | [] => bad
   end.
